@@ -327,6 +327,13 @@ def judgeLine (st : St) (l : String) : Except Verdict St := do
       let st := if canon mo != canon tagged then noteMM st s!"real task union: model {canon mo} observed {canon tagged}" else st
       let st := addBr st "task-union"
       pure { st with nontrivial := st.nontrivial || (tagged.map (·.1)).eraseDups.length ≥ 2 }
+  /- ---------------- race detector (thorough tier) ---------------- -/
+  | ["race", "check", _] =>
+    match obs with
+    | ["0"] => pure { addBr st "race-detector-run" with kind := "race" }
+    | [k] => if k.toNat?.isSome then throw (.specfail "no-data-race" s!"the Go race detector reported {k} data race(s) in real join/union tasks")
+             else throw (.badop s!"{l}: the race run could not be made ({k})")
+    | _ => throw (.badop l)
   | _ => throw (.badop l)
 where
   judgeUnion (st : St) (l : String) (obs : List String) (s' : UState (WCQ UMsg)) (out : List (Nat × UMsg)) (ok : Bool) (fin : Bool) :
